@@ -41,6 +41,7 @@ type genFile struct {
 	Name    string `json:"name"`
 	Sha1    string `json:"sha1"`
 	Sha2    string `json:"sha2"`
+	Sha3    string `json:"sha3"` // the same file generated as the SECOND file of a two-file request (empty: no such run)
 	ParseOK bool   `json:"parse_ok"`
 	ParseEr string `json:"parse_err"`
 }
@@ -58,6 +59,8 @@ type entry struct {
 	RtErr    string    `json:"runtime_gen_err"`
 	GenErr   string    `json:"gen_err"`
 	GenErr2  string    `json:"gen_err2"`
+	GenErr3  string    `json:"gen_err3"`
+	Multi    bool      `json:"multi"` // a two-file request (the previous corpus file of this flavour and option set first, this file second) was run
 	Files    []genFile `json:"files"`
 	DupNames []string  `json:"dup_names"`
 }
@@ -148,6 +151,12 @@ func main() {
 			setParams = sp[1]
 		}
 		for _, fl := range strings.Split(*flavours, ",") {
+			// the previous file of this (option set, flavour) that was generated with the same parameters: it goes first in a two-file request
+			type prevReq struct {
+				path, params string
+				protos       []*descriptorpb.FileDescriptorProto
+			}
+			var prev *prevReq
 			for _, f := range append(corpus.Files(), corpus.RandomFiles(*rseed, *nrand)...) {
 				if len(want) > 0 && !want[f.Base] {
 					continue
@@ -259,6 +268,31 @@ func main() {
 				r1, err1 := runPlugin(filepath.Join(*plugins, "protoc-gen-fastmarshal"), fmReq, *out, []string{"GOMAXPROCS=1", "TZ=UTC"})
 				r2, err2 := runPlugin(filepath.Join(*plugins, "protoc-gen-fastmarshal"), fmReq, alt, []string{"GOMAXPROCS=8", "TZ=Asia/Tokyo", "HOME=/nonexistent"})
 				e.GenErr, e.GenErr2 = err1, err2
+				// a request with two files to generate (`protoc a.proto b.proto`): what is emitted for a file must not depend on the
+				// files generated before it in the same process
+				third := map[string]string{}
+				if prev != nil && prev.params == params && err1 == "" {
+					have := map[string]bool{}
+					var both []*descriptorpb.FileDescriptorProto
+					for _, fp := range append(append([]*descriptorpb.FileDescriptorProto{}, prev.protos...), protos...) {
+						if !have[fp.GetName()] {
+							have[fp.GetName()] = true
+							both = append(both, fp)
+						}
+					}
+					multiReq := &pluginpb.CodeGeneratorRequest{FileToGenerate: []string{prev.path, protoPath}, Parameter: proto.String(params), ProtoFile: both,
+						CompilerVersion: &pluginpb.Version{Major: proto.Int32(5), Minor: proto.Int32(28), Patch: proto.Int32(3)}}
+					r3, err3 := runPlugin(filepath.Join(*plugins, "protoc-gen-fastmarshal"), multiReq, alt, []string{"GOMAXPROCS=2"})
+					e.Multi, e.GenErr3 = true, err3
+					if r3 != nil {
+						for _, gf := range r3.File {
+							third[gf.GetName()] = gf.GetContent()
+						}
+					}
+				}
+				if err1 == "" {
+					prev = &prevReq{path: protoPath, params: params, protos: protos}
+				}
 				if r1 != nil && err1 == "" {
 					second := map[string]string{}
 					if r2 != nil {
@@ -270,6 +304,9 @@ func main() {
 					for _, gf := range r1.File {
 						seen[gf.GetName()]++
 						g := genFile{Name: gf.GetName(), Sha1: sha([]byte(gf.GetContent())), Sha2: sha([]byte(second[gf.GetName()]))}
+						if e.Multi {
+							g.Sha3 = sha([]byte(third[gf.GetName()]))
+						}
 						if _, perr := parser.ParseFile(token.NewFileSet(), gf.GetName(), gf.GetContent(), parser.AllErrors); perr != nil {
 							g.ParseEr = perr.Error()
 						} else {
